@@ -22,7 +22,8 @@ RULE = ("Hypothesis draws 5..120 (thorough ..400) int16 observations (classes ra
         "independent daily-curve model (scatter, LAPACK solve with lambda=1e-5 and weight only on marks, means over runs of equal labels, "
         "half-even rounding; tie width calibrated from two LAPACK solvers); constant -> that constant in every period; linear -> the "
         "exact period means of the line computed in rationals; template and labels bit-identical after the call. Non-trivial: not the "
-        "suite's 5-observation / 51-day example, i.e. every generated case; distinct by content hash.")
+        "suite's 5-observation / 51-day example, i.e. every generated case; distinct by content hash. "
+        " Added after the fifth seeded round: Strided template / labels / observations; generic 'history' sub-check for whitint.")
 ASSUME = ["LAPACK banded Cholesky / LU as reference", "periods whose mean leaves int16 (edge extrapolation) are discarded and counted"]
 
 
